@@ -33,5 +33,36 @@ func propTable() map[string]*PropSpec {
 			Outside: []string{"committee sizes above 64"},
 		}
 	}
+	// ---------------- C06 ----------------
+	{
+		q := []RunConfig{arith(rc("C06_Quorum/n=4,m=5", "services/quorum", "C06_Quorum", map[string]int{"n": 4, "m": 5}))}
+		th := []RunConfig{}
+		for n := 4; n <= 7; n++ {
+			th = append(th, arith(rc(fmt.Sprintf("C06_Quorum/n=%d,m=%d", n, n+2), "services/quorum", "C06_Quorum", map[string]int{"n": n, "m": n + 2})))
+		}
+		for i := range q {
+			q[i].RequireReach = []string{"C06.total_gt_2^53", "C06.two_quorums"}
+		}
+		for i := range th {
+			th[i].RequireReach = []string{"C06.total_gt_2^53", "C06.two_quorums"}
+			th[i].AssertTimeout = 300
+		}
+		t["C06"] = &PropSpec{ID: "C06", Quick: q, Thorough: th,
+			Assumptions: []string{"total committee weight fits in 64 bits and is positive (the property's precondition)", "committee ids are the distinct one-byte ids 1..n; list entries are arbitrary one-byte ids (duplicates, outsiders), plus fixed empty/two-byte/nil ids"},
+			Bounds:      []string{"n=4, lists of 5 ids (quick); n=4..7, lists of n+2 ids (thorough); weights fully symbolic 64-bit"},
+			Outside:     []string{"committees larger than 7 members; id lists longer than n+2; ids longer than one byte other than the fixed samples"},
+		}
+	}
+
+	// ---------------- C19 ----------------
+	{
+		c := arith(rc("C19_Timeout", "services/electiontrigger", "C19_Timeout", nil))
+		c.RequireReach = []string{"C19.view_ge_71", "C19.view_32"}
+		t["C19"] = &PropSpec{ID: "C19", Quick: []RunConfig{c}, Thorough: []RunConfig{c},
+			Assumptions: []string{"base timeout in [1ns, 2^62ns]", "math.Pow(2,y) summary: exact (native) for concrete y; >= 2^64 or +Inf for symbolic y >= 64"},
+			Bounds:      []string{"views 0..70 each as a concrete case, views 71..2^64-1 as one symbolic class; base fully symbolic"},
+			Outside:     []string{"timer goroutine racing Stop, 'not before the timeout', eventual delivery, slow/absent channel reader: properties of the Go runtime timer and scheduler"},
+		}
+	}
 	return t
 }
